@@ -9,7 +9,8 @@ META = {
             "undefined capture group, undefined decorator, next outside a decorator, too many/few index keys, redeclaration, unused "
             "declaration, invalid regex, over-long regex, integer / or % by literal 0) at a seeded block position of a generated well-typed "
             "program; TLC checks WellFormed(base) and ~WellFormed(mutant) for every case and emits the mutants; the real compiler must "
-            "reject each with at least one error positioned inside the source, and a real Runtime must not start it and must count one load error.",
+            "reject each with at least one error positioned inside the source, and a real Runtime must not start it and must count one load "
+            "error - also when a valid version of that name already runs and the defective source is offered twice.",
     "note": "Mutation positions are blocks in pre-order (top level, nested/else/otherwise/decorated blocks, decorator bodies); defects are "
             "inserted statements or declaration/pattern edits, not arbitrary token edits.",
     "technique": "TLA+ well-formedness predicate + TLC-generated one-defect mutants replayed into the real compiler and loader (direction A)",
